@@ -111,15 +111,17 @@ theorem merge3_guarded_run {lt : α → α → Bool} (hlt : SWO lt) (seqs : List
     (hn : seqs.length = 3) (hsize : size ≤ (xsOf seqs).flatten.length) :
     ∃ fin out, machineMerge true lt Gen.merge3 seqs size = some (fin, out) ∧
       StableRun lt (xsOf seqs) size out (xsOf fin) ∧ guardsOf fin = guardsOf seqs :=
-  machineMerge_run hlt true merge3_tableOK (fun _ _ => True) (fun _ _ _ h => by cases h) (fun _ _ _ _ _ _ _ _ _ _ => trivial)
-    seqs size hn trivial hsize
+  have ⟨fin, out, h1, h2, h3, _⟩ := machineMerge_run hlt true merge3_tableOK (fun _ _ => True)
+    (fun _ _ _ h => by cases h) (fun _ _ _ _ _ _ _ _ _ _ => trivial) seqs size hn trivial hsize
+  ⟨fin, out, h1, h2, h3⟩
 
 theorem merge4_guarded_run {lt : α → α → Bool} (hlt : SWO lt) (seqs : List (Seq α)) (size : Nat)
     (hn : seqs.length = 4) (hsize : size ≤ (xsOf seqs).flatten.length) :
     ∃ fin out, machineMerge true lt Gen.merge4 seqs size = some (fin, out) ∧
       StableRun lt (xsOf seqs) size out (xsOf fin) ∧ guardsOf fin = guardsOf seqs :=
-  machineMerge_run hlt true merge4_tableOK (fun _ _ => True) (fun _ _ _ h => by cases h) (fun _ _ _ _ _ _ _ _ _ _ => trivial)
-    seqs size hn trivial hsize
+  have ⟨fin, out, h1, h2, h3, _⟩ := machineMerge_run hlt true merge4_tableOK (fun _ _ => True)
+    (fun _ _ _ h => by cases h) (fun _ _ _ _ _ _ _ _ _ _ => trivial) seqs size hn trivial hsize
+  ⟨fin, out, h1, h2, h3⟩
 
 /-- every sequence is followed by an element greater than all real ones -/
 abbrev Sentinels (lt : α → α → Bool) (seqs : List (Seq α)) : Prop := SentinelsP lt seqs
@@ -130,15 +132,17 @@ theorem merge3_sentinel_run {lt : α → α → Bool} (hlt : SWO lt) (seqs : Lis
     (hn : seqs.length = 3) (hsize : size ≤ (xsOf seqs).flatten.length) (hsen : Sentinels lt seqs) :
     ∃ fin out, machineMerge false lt Gen.merge3 seqs size = some (fin, out) ∧
       StableRun lt (xsOf seqs) size out (xsOf fin) ∧ guardsOf fin = guardsOf seqs :=
-  machineMerge_run hlt false merge3_tableOK (fun seqs _ => SentinelsP lt seqs) (fun _ _ h => h.viewsOK false)
-    (fun _ _ _ _ _ _ h hs hx _ => h.set hs hx) seqs size hn hsen hsize
+  have ⟨fin, out, h1, h2, h3, _⟩ := machineMerge_run hlt false merge3_tableOK (fun seqs _ => SentinelsP lt seqs)
+    (fun _ _ h => h.viewsOK false) (fun _ _ _ _ _ _ h hs hx _ => h.set hs hx) seqs size hn hsen hsize
+  ⟨fin, out, h1, h2, h3⟩
 
 theorem merge4_sentinel_run {lt : α → α → Bool} (hlt : SWO lt) (seqs : List (Seq α)) (size : Nat)
     (hn : seqs.length = 4) (hsize : size ≤ (xsOf seqs).flatten.length) (hsen : Sentinels lt seqs) :
     ∃ fin out, machineMerge false lt Gen.merge4 seqs size = some (fin, out) ∧
       StableRun lt (xsOf seqs) size out (xsOf fin) ∧ guardsOf fin = guardsOf seqs :=
-  machineMerge_run hlt false merge4_tableOK (fun seqs _ => SentinelsP lt seqs) (fun _ _ h => h.viewsOK false)
-    (fun _ _ _ _ _ _ h hs hx _ => h.set hs hx) seqs size hn hsen hsize
+  have ⟨fin, out, h1, h2, h3, _⟩ := machineMerge_run hlt false merge4_tableOK (fun seqs _ => SentinelsP lt seqs)
+    (fun _ _ h => h.viewsOK false) (fun _ _ _ _ _ _ h hs hx _ => h.set hs hx) seqs size hn hsen hsize
+  ⟨fin, out, h1, h2, h3⟩
 
 /-- guarded loser tree merge, every `1 ≤ k ≤ 2^31`, copy and pointer trees, stable and unstable -/
 theorem loserTree_run {lt : α → α → Bool} (hlt : SWO lt) (copy stable : Bool) (dflt : α)
